@@ -130,59 +130,93 @@ func (c *Ctx) errSitesOf(fi *load.FuncInfo) []errSite {
 			}
 			// decisive: from the definition, every path on which the error may be set ends in a no-return call or a return
 			// that mentions the variable, before the variable is overwritten. Paths through an edge that establishes
-			// err == nil are the success paths and are not constrained.
-			nilEdge := func(e *cfgx.Edge) bool {
-				if e.Cond == nil {
+			// err == nil are the success paths and are not constrained. An assignment that copies the variable into another
+			// error variable (`err = err2`, also as one position of a tuple assignment) hands the obligation on to that
+			// variable from there.
+			var decisive func(start int, obj types.Object, depth int) bool
+			decisive = func(start int, obj types.Object, depth int) bool {
+				nilEdge := func(e *cfgx.Edge) bool {
+					if e.Cond == nil {
+						return false
+					}
+					for _, f := range e.Facts() {
+						x, isNil, ok := nilCompare(info, f)
+						if ok && isNil {
+							if xid, ok := ast.Unparen(x).(*ast.Ident); ok && astx.Obj(info, xid) == obj {
+								return true
+							}
+						}
+					}
 					return false
 				}
-				for _, f := range e.Facts() {
-					x, isNil, ok := nilCompare(info, f)
-					if ok && isNil {
-						if xid, ok := ast.Unparen(x).(*ast.Ident); ok && astx.Obj(info, xid) == obj {
+				// copyTo returns the variable that receives obj at vertex x
+				copyTo := func(x int) types.Object {
+					as2, ok := g.V[x].Node.(*ast.AssignStmt)
+					if !ok || x == start || len(as2.Lhs) != len(as2.Rhs) {
+						return nil
+					}
+					for i, rh := range as2.Rhs {
+						rid, ok := ast.Unparen(rh).(*ast.Ident)
+						if !ok || astx.Obj(info, rid) != obj {
+							continue
+						}
+						if lid, ok := as2.Lhs[i].(*ast.Ident); ok && lid.Name != "_" {
+							if o := astx.Obj(info, lid); o != nil && o != obj && types.Identical(o.Type(), errT) {
+								return o
+							}
+						}
+					}
+					return nil
+				}
+				copies := map[int]bool{}
+				stop := func(x int) bool {
+					if x == start {
+						return false
+					}
+					if rs2, ok := g.V[x].Node.(*ast.ReturnStmt); ok && astx.Mentions(info, rs2, obj) {
+						return true
+					}
+					if depth < 3 && copyTo(x) != nil {
+						copies[x] = true
+						return true
+					}
+					return false
+				}
+				overwritten := func(x int) bool {
+					if x == start {
+						return false
+					}
+					as2, ok := g.V[x].Node.(*ast.AssignStmt)
+					if !ok {
+						return false
+					}
+					for _, l := range as2.Lhs {
+						if id, ok := l.(*ast.Ident); ok && astx.Obj(info, id) == obj {
 							return true
 						}
 					}
-				}
-				return false
-			}
-			stop := func(x int) bool {
-				if x == v.ID {
 					return false
 				}
-				if rs2, ok := g.V[x].Node.(*ast.ReturnStmt); ok && astx.Mentions(info, rs2, obj) {
-					return true
+				reach := g.Reach(start, stop, nilEdge)
+				if reach[g.Exit] {
+					return false
 				}
-				if as2, ok := g.V[x].Node.(*ast.AssignStmt); ok {
-					for _, l := range as2.Lhs {
-						if id, ok := l.(*ast.Ident); ok && astx.Obj(info, id) == obj {
-							return false // overwritten: falls through as "reaches exit"? handled below
-						}
+				for x := range g.V {
+					if !reach[x] {
+						continue
+					}
+					if overwritten(x) {
+						return false
 					}
 				}
-				return false
-			}
-			overwritten := func(x int) bool {
-				if x == v.ID {
-					return false
-				}
-				as2, ok := g.V[x].Node.(*ast.AssignStmt)
-				if !ok {
-					return false
-				}
-				for _, l := range as2.Lhs {
-					if id, ok := l.(*ast.Ident); ok && astx.Obj(info, id) == obj {
-						return true
+				for x := range copies {
+					if !decisive(x, copyTo(x), depth+1) {
+						return false
 					}
 				}
-				return false
+				return true
 			}
-			reach := g.Reach(v.ID, stop, nilEdge)
-			strong := !reach[g.Exit]
-			for x := range g.V {
-				if reach[x] && overwritten(x) {
-					strong = false
-				}
-			}
+			strong := decisive(v.ID, obj, 0)
 			out = append(out, errSite{attrib, calleeKey(info, call), strong, false, c.P.Pos(call.Pos())})
 		}
 	}
